@@ -22,7 +22,6 @@ var axiomGroups = map[string]axiomGroup{
 		text: `(assert (forall ((s Str) (a Int) (b Int)) (! (=> (and (<= 0 a) (<= a b) (<= b (slen s))) (= (slen (substr s a b)) (- b a))) :pattern ((substr s a b)))))
 (assert (forall ((s Str) (a Int) (b Int) (i Int)) (! (=> (and (<= 0 a) (<= a b) (<= b (slen s)) (<= 0 i) (< i (- b a))) (= (select (sbytes (substr s a b)) i) (select (sbytes s) (+ a i)))) :pattern ((select (sbytes (substr s a b)) i)))))
 (assert (forall ((s Str)) (! (= (substr s 0 (slen s)) s) :pattern ((substr s 0 (slen s))))))
-(assert (forall ((s Str) (a Int) (b Int) (c Int) (d Int)) (! (=> (and (<= 0 a) (<= a b) (<= b (slen s)) (<= 0 c) (<= c d) (<= d (- b a))) (= (substr (substr s a b) c d) (substr s (+ a c) (+ a d)))) :pattern ((substr (substr s a b) c d)))))
 `},
 	"mkstr": {
 		deps:  []string{"str"},
@@ -40,6 +39,12 @@ var axiomGroups = map[string]axiomGroup{
 		needs: []Decl{{"strcmp", []*Sort{StrSort, StrSort}, IntSort}},
 		text: `(assert (forall ((a Str) (b Str)) (! (and (<= (- 1) (strcmp a b)) (<= (strcmp a b) 1) (= (strcmp a b) (- (strcmp b a))) (= (= (strcmp a b) 0) (= a b))) :pattern ((strcmp a b)))))
 (assert (forall ((a Str) (b Str) (c Str)) (! (=> (and (<= (strcmp a b) 0) (<= (strcmp b c) 0)) (<= (strcmp a c) 0)) :pattern ((strcmp a b) (strcmp b c)))))
+`},
+	"prefix": {
+		deps:  []string{"substr"},
+		needs: []Decl{{"hasPrefix", []*Sort{StrSort, StrSort}, BoolSort}, {"hasSuffix", []*Sort{StrSort, StrSort}, BoolSort}},
+		text: `(assert (forall ((s Str) (p Str)) (! (= (hasPrefix s p) (and (>= (slen s) (slen p)) (= (substr s 0 (slen p)) p))) :pattern ((hasPrefix s p)))))
+(assert (forall ((s Str) (p Str)) (! (= (hasSuffix s p) (and (>= (slen s) (slen p)) (= (substr s (- (slen s) (slen p)) (slen s)) p))) :pattern ((hasSuffix s p)))))
 `},
 	"alloc": {
 		needs: []Decl{{"allocId", []*Sort{RefSort}, IntSort}, {"null", nil, RefSort}},
